@@ -247,13 +247,14 @@ func (c *c15ConnRun) judgeClose() {
 	for _, id := range ids {
 		if g := c15FindG(gs, id); g != nil {
 			excerpt += g.Raw + "\n"
-			if strings.HasPrefix(g.State, "sync.Mutex.Lock") && g.HasFrame("(*Peers).End") {
+			if c15EndOnLock(g) {
 				endParked = true
 			}
 		}
 	}
-	for _, g := range gs {
-		if strings.HasPrefix(g.State, "chan send") && g.HasFrame("(*Peers).Collect") && g.HasFrame("connectLoop") {
+	for i := range gs {
+		g := &gs[i]
+		if c15CollectInHandover(g) && g.HasFrame("connectLoop") {
 			sendParked = true
 			excerpt += g.Raw + "\n"
 		}
@@ -261,7 +262,7 @@ func (c *c15ConnRun) judgeClose() {
 	rec := c.rec()
 	rec["goroutines"] = excerpt
 	if endParked && sendParked {
-		c.res.Violate("c15:end-blocked:collect-handover-send-holds-lock", c.sc.Case+": Close has not returned 45 s after it was called: End parked on collectLock, connectLoop's Collect parked in the hand-over send", rec)
+		c.res.Violate("c15:end-blocked:collect-handover-send-holds-lock", c.sc.Case+": Close has not returned 45 s after it was called: End parked on collectLock, connectLoop's Collect parked in its hand-over to the channel", rec)
 	} else {
 		c.res.Inconcl(c.sc.Case + ": Close has not returned after 45 s; state not the known deadlock: " + excerpt)
 	}
